@@ -1,15 +1,15 @@
 CONSTANTS
-  MaxAttempts = 3
+  MaxAttempts = 2
   Throttle = 2
   Timeout = 60
   ConnTimeout = 60
   Replies = 2
-  MaxFaults = 3
+  MaxFaults = 2
   ConnectGuarded = TRUE
   MaxStreams = 2
-  Delays = {}
+  Delays = {59}
   AllowAbandon = TRUE
-  MaxCalls = 2
+  MaxCalls = 1
 SPECIFICATION Spec
 INVARIANT CommandsOnlyOnVetted
 INVARIANT NoUseAfterTaint
